@@ -3,6 +3,9 @@
 
 mod model;
 
+#[global_allocator]
+static ALLOC: explore::ThreadCache = explore::ThreadCache;
+
 use explore::serde_json::{json, Value as J};
 use explore::{Args, Budget, Report, Tally, Tier};
 use json_syntax::object::verif::HASH_MODE;
@@ -152,6 +155,16 @@ fn state_runs(tier: Tier) -> Vec<RunCfg> {
             modes: vec![0, 1, 2],
         },
     ];
+    v.push(RunCfg {
+        name: "3 keys x 2 values, len<=6, fixpoint",
+        keys: vec!["a", "b", "c"],
+        vals: vec![0, 1],
+        max_len: 6,
+        max_depth: None,
+        inits: vec![Init::Empty],
+        fine: false,
+        modes: if tier == Tier::Quick { vec![1] } else { vec![0, 1, 2] },
+    });
     if tier == Tier::Thorough {
         v.push(RunCfg {
             name: "3 keys x 2 values, len<=6, fixpoint, fine key",
@@ -338,12 +351,16 @@ fn c14_laws(rep: &mut Report, tier: Tier) {
 
 /// C15: unordered equality against recursively sorted normal forms, all ordered pairs.
 fn c15(rep: &mut Report, tier: Tier) {
-    let leaves = [RV::num("0"), RV::num("1")];
-    let keys = ["a", "b"];
-    let n = tier.pick(4, 5);
-    let g = Gen::new(&leaves, &keys, n);
+    c15_universe(rep, tier, &[RV::num("0"), RV::num("1")], &["a", "b"], 5, "binary");
+    if tier == Tier::Thorough {
+        c15_universe(rep, tier, &[RV::num("0"), RV::num("1.0"), RV::Null, RV::str("a")], &["a", "b", "c"], 4, "rich");
+    }
+}
+
+fn c15_universe(rep: &mut Report, tier: Tier, leaves: &[RV], keys: &[&str], n: usize, uname: &str) {
+    let g = Gen::new(leaves, keys, n);
     let univ = g.up_to(n);
-    let expected: u128 = (1..=n).map(|i| Gen::expected_count(2, 2, i)).sum();
+    let expected: u128 = (1..=n).map(|i| Gen::expected_count(leaves.len(), keys.len(), i)).sum();
     if univ.len() as u128 != expected {
         rep.machinery.push(format!("value generator produced {} values, recurrence says {expected}", univ.len()));
     }
@@ -446,7 +463,7 @@ fn c15(rep: &mut Report, tier: Tier) {
     });
     rep.absorb(t);
     rep.tally.sample(json!({"universe": vals.len(), "classes": classes.len(), "example_a": univ[univ.len() / 2].show(), "example_b": univ[univ.len() - 1].show()}));
-    rep.bounds = json!({"values": vals.len(), "max_nodes": n, "leaves": ["0", "1"], "keys": keys, "ordered_pairs": (vals.len() as u64) * (vals.len() as u64), "normal_form_classes": classes.len()});
+    rep.bounds[uname] = json!({"values": vals.len(), "max_nodes": n, "leaves": leaves.iter().map(|l| l.show()).collect::<Vec<_>>(), "keys": keys, "ordered_pairs": (vals.len() as u64) * (vals.len() as u64), "normal_form_classes": classes.len()});
 }
 
 /// "near" pairs: same size and same multiset of keys at the root (the interesting non-equal pairs)
